@@ -681,7 +681,63 @@ func rv3PreludeEncodingGate(w *World) {
 		return true
 	})
 	if counter == "" {
-		w.undecided("encoding-gate|counter", prelude.Decl.Pos(), "no invalid-byte counter (x++) found in lexPrelude")
+		// the counting loop may live in a helper: `idx, count := invalidUTF8(text)` where the helper
+		// increments one of its (named) results in a loop; the counter is the variable bound to it
+		ast.Inspect(prelude.Decl.Body, func(x ast.Node) bool {
+			as, ok := x.(*ast.AssignStmt)
+			if !ok || len(as.Rhs) != 1 || counter != "" {
+				return true
+			}
+			c, ok := ast.Unparen(as.Rhs[0]).(*ast.CallExpr)
+			if !ok {
+				return true
+			}
+			f := callee(info, c)
+			if f == nil {
+				return true
+			}
+			d := gDecls[f.Origin()]
+			if d == nil || d.Body == nil || d.Type.Results == nil {
+				return true
+			}
+			inc := ""
+			ast.Inspect(d.Body, func(y ast.Node) bool {
+				if ids, ok := y.(*ast.IncDecStmt); ok && ids.Tok == token.INC {
+					inc = render(ids.X)
+				}
+				return true
+			})
+			if inc == "" {
+				return true
+			}
+			// position of the incremented variable among the results (named results, or the
+			// variable returned at that position)
+			ri := 0
+			for _, fl := range d.Type.Results.List {
+				for _, nm := range fl.Names {
+					if nm.Name == inc && ri < len(as.Lhs) {
+						counter = render(as.Lhs[ri])
+					}
+					ri++
+				}
+			}
+			if counter == "" {
+				ast.Inspect(d.Body, func(y ast.Node) bool {
+					if r, ok := y.(*ast.ReturnStmt); ok {
+						for i, e := range r.Results {
+							if render(e) == inc && i < len(as.Lhs) {
+								counter = render(as.Lhs[i])
+							}
+						}
+					}
+					return true
+				})
+			}
+			return true
+		})
+	}
+	if counter == "" {
+		w.undecided("encoding-gate|counter", prelude.Decl.Pos(), "no invalid-byte counter (x++) found in lexPrelude or in a helper it calls")
 		return
 	}
 	const N = 1500
